@@ -506,7 +506,8 @@ def check(rep, tier, seed, driver):
                 "ProximityArchive (with and without local competition), all extra-field layouts, both dtypes. Every rejected call: full "
                 "before/after snapshot; every later valid call: feedback and snapshot equal to a twin archive that never saw the rejected calls, "
                 "and (Grid/CVT) to the extracted model run on the valid calls only. Scheduler.tell in batch mode with and without result "
-                "archive. A case is non-trivial when a call was actually rejected in a non-empty archive or followed by >= 2 valid calls.")
+                "archive. A case is non-trivial when a call was actually rejected in a non-empty archive or followed by >= 2 valid calls." 
+                "; plus: objectives / measures that are finite as given but overflow a float32 archive")
     cases = au.load_corpus("C11")
     for _ in range(n):
         cases.append(gen_case(rng, tier))
